@@ -42,3 +42,21 @@ func VerifCompact(k KV) error {
 	}
 	return p.db.Compact(first, last, true)
 }
+
+// VerifKV gives the verification harness access to the key-value store under a DB.
+func VerifKV(d DB) KV {
+	impl, ok := d.(*db)
+	if !ok {
+		return nil
+	}
+	return impl.kv
+}
+
+// VerifVersionIdTracker returns the in-memory version id counter of a DB.
+func VerifVersionIdTracker(d DB) int64 {
+	impl, ok := d.(*db)
+	if !ok {
+		return -2
+	}
+	return impl.versionIdTracker.Load()
+}
